@@ -4,6 +4,7 @@ CONSTANTS
   MaxLen = 4
   NB = 25
   Alphabet <- AlphaQuick
+  EmitMod = 1
 INVARIANT NoCrash
 INVARIANT ErrorLineInRange
 INVARIANT ErrorAtLastLine
